@@ -61,8 +61,11 @@ func (gen *Generator) GenerateBegin(expressions []Sexp) error {
 	oldtail := gen.Tail
 	gen.Tail = false
 	if size == 0 {
+		// an empty body has the value nil; generating nothing would
+		// let the consumer of this form's value pop an operand of
+		// the enclosing expression instead.
+		gen.AddInstruction(PushInstr{SexpNull})
 		return nil
-		//return NoExpressionsFound
 	}
 	startInstructionCount := 0
 	for _, expr := range expressions[:size-1] {
